@@ -1,5 +1,3 @@
-\* X15: closed configuration "oset" of UtilContMC (one ordered set over 3 keys, implementation layer in lock step);
-\* the check generates its configurations from harness/props/x15.py: configs() (osetA osetB and their _impl twins)
 CONSTANTS
   Which = "oset"
   NNodes = 4
